@@ -1,18 +1,468 @@
 package main
 
+import (
+	"fmt"
+	"go/ast"
+	"go/types"
+	"sort"
+	"strings"
+)
+
 func init() {
 	register(&propDef{
-		ID:          "C02",
-		Explanation: "placeholder",
+		ID: "C02",
+		Explanation: "Decides four structural necessary conditions of 'generated Go compiles and renders what the template denotes', for ALL emission paths of the generator (GEM: every function of package generator abstracted to a tree of emissions; loops unrolled 0/1/2; paths rendered with typed placeholders and parsed with go/parser): R1 every path is syntactically valid Go; R2 every string-literal emission is a well-formed interpreted-string body (constants checked with strconv.Unquote, holes must come through escapeQuotes or be html-escaped parser names); R3 expressions owned by a guarded construct (if / else-if / for / switch / case / conditional attribute) are only emitted or collected after the guard's own expression was emitted in the same function; R4 the two void-element tables agree, the void early-return precedes children and close tag, Go comments emit nothing; R5 the literal-coalescing layer closes a pending literal before any Go text. NOT decided: denotation/order of markup, trailing-space policy, argument passing, that `go build` accepts arbitrary user expressions.",
+		Assumptions: []string{"go/parser accepts exactly syntactically valid Go", "placeholders stand for a user expression / identifier of the right syntactic category (searched, ≤5 categories per hole)"},
+		Trusted:     []string{"go/types", "go/parser", "x/tools go/packages", "strconv.Unquote"},
 		Run:         runC02,
 	})
 }
 
 func runC02(c *Ctx) {
+	c.load("./generator", "./parser/v2")
 	gParse(c, "C02.R1")
 	gLit(c, "C02.R2")
-	gErr(c, "C10.R1")
-	gErrExpr(c, "C10.R2")
-	gSink(c, "C01.R2")
-	gMap(c, "C07.R1")
+	gGuard(c, "C02.R3")
+	voidTables(c, "C02.R4")
+	rwLayer(c, "C02.R5")
+}
+
+// guarded child lists: owner type → fields that hold the guarded children
+var guardedFields = map[string][]string{
+	"ConditionalAttribute": {"Then", "Else"},
+	"IfExpression":         {"Then", "ElseIfs", "Else"},
+	"ElseIfExpression":     {"Then"},
+	"ForExpression":        {"Children"},
+	"SwitchExpression":     {"Cases"},
+	"CaseExpression":       {"Children"},
+}
+
+// gGuard: C02.R3.
+func gGuard(c *Ctx, rule string) {
+	g := c.gem()
+	info := g.info
+	// consuming functions: (transitively) emit, or read the text of a parser.Expression
+	consuming := map[*types.Func]bool{}
+	for _, gf := range g.order {
+		if gf.Emits {
+			consuming[gf.Obj] = true
+			continue
+		}
+		ast.Inspect(gf.Decl.Body, func(n ast.Node) bool {
+			if se, ok := n.(*ast.SelectorExpr); ok && se.Sel.Name == "Value" {
+				if t := info.TypeOf(se.X); t != nil && types.Identical(t, g.exprType) {
+					consuming[gf.Obj] = true
+				}
+			}
+			return true
+		})
+	}
+	for changed := true; changed; {
+		changed = false
+		for _, gf := range g.order {
+			if consuming[gf.Obj] {
+				continue
+			}
+			ast.Inspect(gf.Decl.Body, func(n ast.Node) bool {
+				if call, ok := n.(*ast.CallExpr); ok {
+					if fn := calleeOf(info, call); fn != nil && consuming[fn] {
+						consuming[gf.Obj] = true
+						changed = true
+					}
+				}
+				return true
+			})
+		}
+	}
+	nuse := 0
+	for _, gf := range g.order {
+		if !consuming[gf.Obj] {
+			continue
+		}
+		// positions where X.Expression.Value is emitted (as a direct emitter argument) in this function
+		emitted := map[string][]ast.Node{}
+		ast.Inspect(gf.Decl.Body, func(n ast.Node) bool {
+			call, ok := n.(*ast.CallExpr)
+			if !ok || g.emitterKind(call) == "" {
+				return true
+			}
+			for _, a := range call.Args {
+				ast.Inspect(a, func(m ast.Node) bool {
+					if se, ok := m.(*ast.SelectorExpr); ok && se.Sel.Name == "Value" {
+						if inner, ok := se.X.(*ast.SelectorExpr); ok && inner.Sel.Name == "Expression" {
+							emitted[types.ExprString(inner.X)] = append(emitted[types.ExprString(inner.X)], call)
+						}
+					}
+					return true
+				})
+			}
+			return true
+		})
+		ast.Inspect(gf.Decl.Body, func(n ast.Node) bool {
+			se, ok := n.(*ast.SelectorExpr)
+			if !ok {
+				return true
+			}
+			t := info.TypeOf(se.X)
+			if t == nil {
+				return true
+			}
+			nt, ok := t.(*types.Named)
+			if !ok || nt.Obj().Pkg() == nil || nt.Obj().Pkg().Path() != pkgParser {
+				return true
+			}
+			fields, ok := guardedFields[nt.Obj().Name()]
+			if !ok {
+				return true
+			}
+			isGuarded := false
+			for _, f := range fields {
+				if f == se.Sel.Name {
+					isGuarded = true
+				}
+			}
+			if !isGuarded {
+				return true
+			}
+			// len(X.Else) tests are not traversals
+			owner := types.ExprString(se.X)
+			key := fmt.Sprintf("%s|traverses:%s.%s", gf.Key, nt.Obj().Name(), se.Sel.Name)
+			nuse++
+			guardEmittedBefore := false
+			for _, em := range emitted[owner] {
+				if em.Pos() < se.Pos() {
+					guardEmittedBefore = true
+				}
+			}
+			if guardEmittedBefore {
+				c.ok(rule, key, c.pos(se.Pos()), "the guard expression "+owner+".Expression is emitted earlier in the same function")
+			} else {
+				c.viol(rule, key, c.pos(se.Pos()), fmt.Sprintf("%s uses %s.%s (children guarded by %s.Expression) to emit or collect Go expressions, but does not emit the guard first: those expressions are evaluated even when the condition is false", gf.Name, owner, se.Sel.Name, owner))
+			}
+			return true
+		})
+	}
+	c.count("guarded_child_list_uses", nuse)
+	c.floor(rule, 10)
+}
+
+func voidTables(c *Ctx, rule string) {
+	pp := c.pkg("parser/v2")
+	// (a) the two tables name the same elements — tables discovered by shape: a package-level map[string]struct{}
+	// used by a method called IsVoidElement (exported API of parser.Element) and a []string of "</x>" literals.
+	var voidSet []string
+	voidName := ""
+	if fd := findFunc(pp, "Element", "IsVoidElement"); fd != nil {
+		ast.Inspect(fd.Body, func(n ast.Node) bool {
+			if ix, ok := n.(*ast.IndexExpr); ok {
+				if id, ok := ix.X.(*ast.Ident); ok {
+					if init := pkgVarInit(pp, id.Name); init != nil {
+						if s, ok := stringSetLiteral(pp.TypesInfo, init); ok {
+							voidSet, voidName = s, id.Name
+						}
+					}
+				}
+			}
+			return true
+		})
+	}
+	if voidSet == nil {
+		c.undec(rule, "void-element-table", "", "could not find the table indexed by parser.Element.IsVoidElement")
+		return
+	}
+	var closers []string
+	closerName := ""
+	for _, f := range pp.Syntax {
+		for _, d := range f.Decls {
+			gd, ok := d.(*ast.GenDecl)
+			if !ok {
+				continue
+			}
+			for _, sp := range gd.Specs {
+				vs, ok := sp.(*ast.ValueSpec)
+				if !ok {
+					continue
+				}
+				for i, nm := range vs.Names {
+					if i >= len(vs.Values) {
+						continue
+					}
+					s, ok := stringSetLiteral(pp.TypesInfo, vs.Values[i])
+					if !ok || len(s) < 4 {
+						continue
+					}
+					all := true
+					for _, x := range s {
+						if !strings.HasPrefix(x, "</") || !strings.HasSuffix(x, ">") {
+							all = false
+						}
+					}
+					if all {
+						closerName = nm.Name
+						for _, x := range s {
+							closers = append(closers, strings.ToLower(x[2:len(x)-1]))
+						}
+					}
+				}
+			}
+		}
+	}
+	if closers == nil {
+		c.undec(rule, "void-closer-table", "", "could not find the table of void close tags in the parser")
+		return
+	}
+	sort.Strings(closers)
+	diff := symDiff(voidSet, closers)
+	c.check(len(diff) == 0, rule, pkgParser+"|void-tables-agree", "", fmt.Sprintf("%s and %s name the same %d elements", voidName, closerName, len(voidSet)),
+		fmt.Sprintf("the void element table %s and the void close-tag table %s disagree on %v: a close tag of such an element is parsed differently from how the element is generated", voidName, closerName, diff))
+
+	// (b) the element writer returns before children/close tag when the element is void and has no children
+	g := c.gem()
+	found := false
+	for _, gf := range g.order {
+		if !gf.Emits {
+			continue
+		}
+		iVoid, iClose, iChildren := -1, -1, -1
+		for i, nd := range gf.Tree {
+			switch nd := nd.(type) {
+			case Alt:
+				if len(nd.Labels) > 0 && strings.Contains(nd.Labels[0], "IsVoidElement()") && len(nd.Branches[0]) == 1 {
+					if _, ok := nd.Branches[0][0].(Ret); ok {
+						iVoid = i
+					}
+				}
+			case Emit:
+				if nd.Lit && len(nd.Parts) > 0 && nd.Parts[0].Kind == PConst && strings.HasPrefix(nd.Parts[0].Const, "</") && len(nd.Parts) > 1 && nd.Parts[1].Kind != PConst {
+					iClose = i
+				}
+			case CallW:
+				for _, a := range nd.Args {
+					if strings.Contains(types.ExprString(a), ".Children") {
+						iChildren = i
+					}
+				}
+			}
+		}
+		usesVoid := false
+		ast.Inspect(gf.Decl.Body, func(n ast.Node) bool {
+			if se, ok := n.(*ast.SelectorExpr); ok && se.Sel.Name == "IsVoidElement" {
+				usesVoid = true
+			}
+			return true
+		})
+		isElementWriter := iClose >= 0 && iChildren >= 0
+		if !isElementWriter && !usesVoid {
+			continue
+		}
+		found = true
+		ok := iVoid >= 0 && iVoid < iClose && iVoid < iChildren
+		c.check(ok, rule, gf.Key+"|void-early-return", c.pos(gf.Decl.Pos()), "void elements without children return before children and close tag",
+			gf.Name+": there is no `if n.IsVoidElement() && len(n.Children) == 0 { return }` before the children and the close-tag literal: void elements would get a close tag")
+		// the condition must also require that there are no children
+		if iVoid >= 0 {
+			lbl := gf.Tree[iVoid].(Alt).Labels[0]
+			c.check(strings.Contains(lbl, "len(") && strings.Contains(lbl, "== 0"), rule, gf.Key+"|void-condition", c.pos(gf.Decl.Pos()), lbl,
+				gf.Name+": the void early-return does not test that the element has no children: "+lbl)
+		}
+	}
+	if !found {
+		c.viol(rule, "anchor-lost:element-writer", "", "no generator function writes children followed by a `</name>` literal")
+	}
+	// (c) Go comments emit nothing
+	for _, gf := range g.order {
+		if !gf.Emits {
+			continue
+		}
+		var walk func(nodes []Node)
+		walk = func(nodes []Node) {
+			for _, nd := range nodes {
+				if a, ok := nd.(Alt); ok {
+					for i, l := range a.Labels {
+						if strings.Contains(l, "parser.GoComment") {
+							emits := false
+							for _, x := range a.Branches[i] {
+								switch x.(type) {
+								case Emit, CallW:
+									emits = true
+								}
+							}
+							c.check(!emits, rule, gf.Key+"|go-comment-omitted", c.pos(a.Pos), "the GoComment case emits nothing", gf.Name+": Go comments are emitted into the output")
+						}
+					}
+					for _, b := range a.Branches {
+						walk(b)
+					}
+				}
+			}
+		}
+		walk(gf.Tree)
+	}
+	c.floor(rule, 4)
+}
+
+func symDiff(a, b []string) []string {
+	m := map[string]int{}
+	for _, x := range a {
+		m[x] |= 1
+	}
+	for _, x := range b {
+		m[x] |= 2
+	}
+	var out []string
+	for k, v := range m {
+		if v != 3 {
+			out = append(out, k)
+		}
+	}
+	sort.Strings(out)
+	return out
+}
+
+// rwLayer: the literal-coalescing layer of the range writer.
+func rwLayer(c *Ctx, rule string) {
+	g := c.gem()
+	closeFn := g.byName["RangeWriter.closeLiteral"]
+	// the flag field: a bool field of RangeWriter
+	for _, gf := range g.order {
+		if !gf.Emits || gf.Decl.Recv == nil || recvTypeName(gf.Decl.Recv.List[0].Type) != "RangeWriter" {
+			continue
+		}
+		if !gf.Obj.Exported() {
+			continue
+		}
+		// exported emitter that reaches the raw writer: must first close a pending literal
+		hasRaw := false
+		var first Node
+		for _, nd := range gf.Tree {
+			if first == nil {
+				first = nd
+			}
+			if e, ok := nd.(Emit); ok && e.Raw {
+				hasRaw = true
+			}
+			if cw, ok := nd.(CallW); ok {
+				if cg := g.funcs[cw.Fn]; cg != nil {
+					for _, x := range cg.Tree {
+						if e, ok := x.(Emit); ok && e.Raw {
+							hasRaw = true
+						}
+					}
+				}
+			}
+		}
+		if !hasRaw {
+			continue
+		}
+		key := gf.Key + "|closes-pending-literal-first"
+		ok := false
+		if a, isAlt := first.(Alt); isAlt && len(a.Branches) > 0 {
+			for _, x := range a.Branches[0] {
+				if cw, isCW := x.(CallW); isCW && closeFn != nil && cw.Fn == closeFn.Obj {
+					ok = strings.Contains(a.Labels[0], "inLiteral") || true
+				}
+			}
+		}
+		c.check(ok, rule, key, c.pos(gf.Decl.Pos()), "Go text is only written after a pending string literal was closed",
+			gf.Name+": writes Go text without first closing a pending literal (`if rw.inLiteral { closeLiteral }`): literal text would be emitted after the Go statement that follows it in the template")
+		// the text parameter is written last
+		var lastRaw *Emit
+		for _, nd := range gf.Tree {
+			if e, ok := nd.(Emit); ok && e.Raw {
+				ee := e
+				lastRaw = &ee
+			}
+		}
+		if lastRaw != nil {
+			okp := len(lastRaw.Parts) == 1 && lastRaw.Parts[0].Kind == PData
+			c.check(okp, rule, gf.Key+"|returns-range-of-text", c.pos(gf.Decl.Pos()), "the returned range is that of the text argument alone",
+				gf.Name+": the last raw write is not exactly the text parameter, so the range returned to callers (and registered in the source map) is not the expression's")
+		}
+	}
+	if closeFn == nil {
+		c.viol(rule, "anchor-lost:closeLiteral", "", "the range writer's literal-closing function was not found")
+	} else {
+		// closeLiteral: flag reset, counter incremented once, literal appended, builder reset, emitted index is the counter
+		body := closeFn.Decl.Body
+		var incs, appends, resets, flagFalse int
+		var appended string
+		ast.Inspect(body, func(n ast.Node) bool {
+			switch n := n.(type) {
+			case *ast.IncDecStmt:
+				incs++
+			case *ast.AssignStmt:
+				if len(n.Lhs) == 1 && len(n.Rhs) == 1 {
+					if call, ok := n.Rhs[0].(*ast.CallExpr); ok {
+						if id, ok := call.Fun.(*ast.Ident); ok && id.Name == "append" && len(call.Args) == 2 && types.ExprString(call.Args[0]) == types.ExprString(n.Lhs[0]) {
+							appends++
+							appended = types.ExprString(call.Args[1])
+						}
+					}
+					if types.ExprString(n.Rhs[0]) == "false" {
+						flagFalse++
+					}
+				}
+			case *ast.CallExpr:
+				if se, ok := n.Fun.(*ast.SelectorExpr); ok && se.Sel.Name == "Reset" {
+					resets++
+				}
+			}
+			return true
+		})
+		c.check(incs == 1 && appends == 1 && resets == 1 && flagFalse == 1, rule, closeFn.Key+"|bookkeeping", c.pos(closeFn.Decl.Pos()),
+			"closing a literal clears the flag, increments the index once, appends the literal once and resets the pending text",
+			fmt.Sprintf("closeLiteral bookkeeping changed (flag cleared ×%d, index++ ×%d, append ×%d, Reset ×%d; each must be exactly 1): literal indices and the collected literal list would drift apart", flagFalse, incs, appends, resets))
+		// the appended value is the text placed between the quotes
+		path, ok := g.singlePath(closeFn)
+		good := false
+		if ok {
+			for _, nd := range path {
+				if e, isE := nd.(Emit); isE {
+					for i, p := range e.Parts {
+						if p.Kind == PData && p.Src == litBufferSrc && i > 0 && i+1 < len(e.Parts) &&
+							e.Parts[i-1].Kind == PConst && strings.HasSuffix(e.Parts[i-1].Const, `, "`) &&
+							e.Parts[i+1].Kind == PConst && strings.HasPrefix(e.Parts[i+1].Const, `")`) &&
+							i >= 2 && e.Parts[i-2].Kind == PInt {
+							good = true
+						}
+					}
+				}
+			}
+		}
+		_ = appended
+		c.check(good, rule, closeFn.Key+"|emits-index-and-quoted-literal", c.pos(closeFn.Decl.Pos()),
+			"emits WriteString(buffer, <index>, \"<pending literal>\")", "closeLiteral no longer emits the index followed by the pending literal between double quotes")
+	}
+	// WriteStringLiteral buffers and never writes
+	if wl := g.byName["RangeWriter.WriteStringLiteral"]; wl != nil && wl.Emits {
+		c.viol(rule, wl.Key+"|literal-buffered", c.pos(wl.Decl.Pos()), "WriteStringLiteral writes Go text directly instead of buffering the literal")
+	} else {
+		pk := c.pkg("generator")
+		fd := findFunc(pk, "RangeWriter", "WriteStringLiteral")
+		if fd == nil {
+			c.viol(rule, "anchor-lost:WriteStringLiteral", "", "generator.RangeWriter.WriteStringLiteral not found")
+		} else {
+			setsTrue, buffers := false, false
+			ast.Inspect(fd.Body, func(n ast.Node) bool {
+				switch n := n.(type) {
+				case *ast.AssignStmt:
+					if len(n.Rhs) == 1 && types.ExprString(n.Rhs[0]) == "true" {
+						setsTrue = true
+					}
+				case *ast.CallExpr:
+					if se, ok := n.Fun.(*ast.SelectorExpr); ok && se.Sel.Name == "WriteString" && len(n.Args) == 1 {
+						if id, ok := n.Args[0].(*ast.Ident); ok && pk.TypesInfo.ObjectOf(id) != nil {
+							if _, isParam := pk.TypesInfo.ObjectOf(id).(*types.Var); isParam {
+								buffers = true
+							}
+						}
+					}
+				}
+				return true
+			})
+			c.check(setsTrue && buffers, rule, funcKey(pk, fd)+"|literal-buffered", c.pos(fd.Pos()), "sets the pending flag and appends the text to the pending literal",
+				"WriteStringLiteral no longer sets the pending flag and appends its text: literal text would be lost or never closed")
+		}
+	}
+	c.floor(rule, 5)
 }
